@@ -36,9 +36,9 @@ fn b_assumptions() -> Vec<String> {
 pub fn spec_for(id: &str) -> Option<CheckSpec> {
   let mut s = spec_for_inner(id)?;
   let e: Option<Box<dyn Campaign>> = match id {
-    "C01" | "C02" | "C05" | "C07" | "C19" => Some(Box::new(E2ECampaign::new(s.property, Source::Random, None, 60_000, 4_000_000))),
-    "C03" | "C04" => Some(Box::new(E2ECampaign::new(s.property, Source::Dist, Some(false), 60_000, 4_000_000))),
-    "C08" => Some(Box::new(E2ECampaign::new(s.property, Source::Dist, Some(true), 60_000, 4_000_000))),
+    "C01" | "C02" | "C05" | "C07" | "C19" => Some(Box::new(E2ECampaign::new(s.property, Source::Random, None, 300_000, 6_000_000))),
+    "C03" | "C04" => Some(Box::new(E2ECampaign::new(s.property, Source::Dist, Some(false), 300_000, 6_000_000))),
+    "C08" => Some(Box::new(E2ECampaign::new(s.property, Source::Dist, Some(true), 300_000, 6_000_000))),
     _ => None,
   };
   if let Some(c) = e {
@@ -66,13 +66,14 @@ fn spec_for_inner(id: &str) -> Option<CheckSpec> {
       s.assumptions.push("loop campaign: after every tablet-mode change (the reset the statement names) the real loop is compared with RefLoop continued with a brand-new mapper and no timer; a send a freshly started loop would not make, or a missing/different one, is reported as C06-loop-not-fresh".to_string()); s }
     "C07" => spec("C07", vec![Box::new(k("C07", Source::Random, Q, T).norepeat().special().resets()), Box::new(k("C07", Source::Shipped, QS, TS).resets())], true),
     "C08" => spec("C08", vec![Box::new(k("C08", Source::Dist, Q, T).absorbing(Some(true)))], true),
-    "C09" => spec("C09", vec![Box::new(k("C09", Source::Random, Q, T).special().resets()), Box::new(k("C09", Source::Shipped, QS, TS).resets())], true),
+    "C09" => { let mut s = spec("C09", vec![Box::new(k("C09", Source::Random, Q, T).special().resets()), Box::new(k("C09", Source::Shipped, QS, TS).resets()), Box::new(b("C09", SourceB::Random, QB / 2, TB / 4).special())], true);
+      s.assumptions.push("loop campaign: what the loop does with the repeat requests is observed through its poll timeouts and chords (armed exactly when a Special mapping fired, cancelled by every acted-on event, untouched by ignored ones); a disagreement with RefLoop's timer state is reported as C09-loop-repeat-state".to_string()); s }
     "C19" => spec("C19", vec![Box::new(k("C19", Source::Random, Q, T).resets()), Box::new(k("C19", Source::Shipped, QS, TS).resets()), Box::new(b("C19", SourceB::Random, QB / 2, TB / 4))], false),
     "C10" => bspec("C10", vec![Box::new(b("C10", SourceB::Random, QB, TB)), Box::new(b("C10", SourceB::Shipped, QB / 4, TB / 4)), Box::new(b("C10", SourceB::Random, 100_000, 3_000_000).hybrid().tablet())]),
     "C11" => bspec("C11", vec![Box::new(b("C11", SourceB::Random, QB, TB).special()), Box::new(b("C11", SourceB::Shipped, QB / 4, TB / 4))]),
     "C12" => bspec("C12", vec![Box::new(b("C12", SourceB::Random, QB, TB).tablet()), Box::new(b("C12", SourceB::Shipped, QB / 4, TB / 4).tablet())]),
     "C20" => { let mut s = bspec("C20", vec![Box::new(b("C20", SourceB::Random, 30_000, 3_000_000).sweep()), Box::new(b("C20", SourceB::Shipped, 10_000, 600_000).sweep()), Box::new(b("C20", SourceB::Random, 6_000, 400_000).write_faults().tablet())]); s.level = "fault_enumeration"; s }
-    "C18" => CheckSpec { property: "C18", level: "exploration", campaigns: vec![Box::new(WireCampaign::new(true, 0, 0)), Box::new(WireCampaign::new(false, 400_000, 20_000_000)), Box::new(b("C18", SourceB::Random, 100_000, 3_000_000).hybrid().tablet())],
+    "C18" => CheckSpec { property: "C18", level: "exploration", campaigns: vec![Box::new(WireCampaign::new(true, 0, 0)), Box::new(WireCampaign::lengths()), Box::new(WireCampaign::new(false, 400_000, 20_000_000)), Box::new(b("C18", SourceB::Random, 100_000, 3_000_000).hybrid().tablet())],
       assumptions: vec!["libc::input_event for this target (x86-64: 24 bytes) is the kernel's record layout".into(), "KeyCode discriminants are the kernel key numbers".into(), "an evdev node delivers whole records; EOF and short reads do not occur on it (device removal is ENODEV, injected in world B)".into(), "batches and interleavings are sampled; the sweep over all key codes x {press, release} is exhaustive".into()],
       exhaustive_note: Some("campaign wiresim-all-codes enumerates every key code the tool knows x {press, release, inside a batch}".into()) },
     "C14" => CheckSpec { property: "C14", level: "exploration", campaigns: vec![Box::new(StoreCampaign::new(true, 0, 0)), Box::new(StoreCampaign::new(false, 400_000, 30_000_000))],
